@@ -74,6 +74,17 @@ func genC07(t *rapid.T, maxDepth int) (*DCase, map[string]bool) {
 				ast.Return(ast.Bin("+", ast.Id("x"), ast.Num("1"))))))
 			g.Funs = append(g.Funs, gen.Fun{Name: st.name, Arity: 3})
 		}
+		for _, st := range []struct{ name, kw string }{{"iterx", "exit"}, {"itern", "next"}} {
+			kw := ast.Exit()
+			if st.kw == "next" {
+				kw = ast.Next()
+			}
+			items = append(items, ast.Func(st.name, []string{"name", "it", "stop"}, ast.Block(
+				ast.Print(ast.Str("iter-"+st.kw), ast.Id("name")),
+				ast.If(ast.Id("stop"), ast.Block(kw)),
+				ast.Return(ast.Id("it")))))
+			g.Funs = append(g.Funs, gen.Fun{Name: st.name, Arity: 3})
+		}
 	}
 	nf := rapid.IntRange(0, 2).Draw(t, "nfuncs")
 	var funs []gen.Fun
@@ -122,7 +133,7 @@ func genC07(t *rapid.T, maxDepth int) (*DCase, map[string]bool) {
 }
 
 func c07Nontrivial(labels map[string]bool, d *diffResult) bool {
-	for _, l := range []string{"break-in-nested-loop", "continue-in-nested-loop", "return-from-loop", "dangling-else", "next-in-loop", "exit-in-loop", "next-in-function", "exit-in-function", "for-post-stops-run-or-rule", "for-cond-stops-run-or-rule"} {
+	for _, l := range []string{"break-in-nested-loop", "continue-in-nested-loop", "return-from-loop", "dangling-else", "next-in-loop", "exit-in-loop", "next-in-function", "exit-in-function", "for-post-stops-run-or-rule", "for-cond-stops-run-or-rule", "for-in-iterable-stops-run-or-rule"} {
 		if labels[l] {
 			return true
 		}
